@@ -7,6 +7,7 @@ import (
 	"strings"
 	"testing"
 
+	seccomp "github.com/elastic/go-seccomp-bpf"
 	"github.com/elastic/go-seccomp-bpf/arch"
 	"pgregory.net/rapid"
 
@@ -90,8 +91,25 @@ func isASCII(s string) bool {
 }
 
 // judge applies the statement of C07 to a policy value.
+// libraryNamesUserNotif: the tree under test gives SECCOMP_RET_USER_NOTIF a name of its own (its text form parses back to
+// it and is not the text of an arbitrary unknown value). The pinned tree exports the constant without a name; a tree that
+// names it has made it one of its documented actions, and whether it may then be a default action is not settled here.
+func libraryNamesUserNotif() (named bool) {
+	defer func() {
+		if recover() != nil {
+			named = false
+		}
+	}()
+	a := seccomp.Action(0x7fc00000)
+	s := a.String()
+	var b seccomp.Action
+	return b.Unpack(s) == nil && b == a && s != seccomp.Action(0x12345).String()
+}
+
 func judge(p *spec.Policy) (v verdict, inconclusive string) {
-	if oracle.ActionName(p.Default) == "" {
+	if p.Default == 0x7fc00000 && libraryNamesUserNotif() {
+		v.noClaim = append(v.noClaim, "default action user_notif in a tree that gives that action a name")
+	} else if oracle.ActionName(p.Default) == "" {
 		v.defects = append(v.defects, "unknown-default-action")
 	}
 	if len(p.Groups) == 0 {
